@@ -5,7 +5,7 @@ LEVEL = "model_checking"
 def run(ctx):
     for fam in ['join']:
         sqlprop.laws(ctx, f"SqlLaws_{fam}_{ctx.tier}.cfg")
-    sqlprop.run_sql_property(ctx, corpus=['join', 'joinx'], seeded=[('joins', {'null_p': 0.3, 'dom': 2})], quick_n=400, seeded_quick=250,
+    sqlprop.run_sql_property(ctx, corpus=['join', 'joinx', 'big'], seeded=[('joins', {'null_p': 0.3, 'dom': 2})], quick_n=200, seeded_quick=250, cfgs=[sqlprop.cfg('mem1'), sqlprop.cfg('mem_b3', batches=3), sqlprop.cfg('mem_b40', batches=40, keep_empty=True), sqlprop.cfg('pq_2f_rg1', layout='parquet', files=2, rg=1), sqlprop.cfg('pq_rg1_stream', layout='parquet', files=1, rg=1, switches=['stream_small'])],
         rule='inner/left/right/full/cross joins with 1-2 equi-keys of int/string/date/double columns, NULL keys, duplicates, residual ON predicates over either/both sides; TLC checks the join laws (subset/mirror/cardinality/NULL keys/residual before match tracking) over all small table pairs.')
 
 def replay(ctx, obj):
